@@ -207,7 +207,8 @@ def render_fn_contract(fn, probe_labels, with_guard_requires=True):
     if with_guard_requires:
         req += [c for c in fn.extra_guard_requires if c.label not in probe_labels]
     lines += [(t, ("requires", l) if l else None) for t, l in clause_lines("requires", req, probe_labels)]
-    lines += [(t, ("ensures", l) if l else None) for t, l in clause_lines("ensures", fn.ensures, probe_labels)]
+    ens = [c for c in fn.ensures if not (getattr(c, "stub_only", False) and getattr(fn, "mode", "verify") == "verify")]
+    lines += [(t, ("ensures", l) if l else None) for t, l in clause_lines("ensures", ens, probe_labels)]
     if fn.decreases:
         lines.append(("    decreases " + fn.decreases + ",", None))
     return lines
